@@ -655,7 +655,8 @@ def renderNode (c : RCtx) : Node → M Status
       | some (cyc, rebuild) =>
         let n := cycleGet cyc group
         M.setVar nmForloop (rebuild (cycleSet cyc group (n + 1)))
-        writeM ((v0 :: rest).getD (n % (rest.length + 1)) v0)
+        -- `TagNode.render` hands the tag `verbatimWriter{w}`: what a tag writes is not literal text
+        writeVerbatimM ((v0 :: rest).getD (n % (rest.length + 1)) v0)
         pure .done)
   | .brk line => pure (.brk (wrapError c.cfg.path (.located (wrapError c.cfg.path (.plain .brk) ⟨line, true⟩)) ⟨line, true⟩))
   | .cont line => pure (.cont (wrapError c.cfg.path (.located (wrapError c.cfg.path (.plain .cont) ⟨line, true⟩)) ⟨line, true⟩))
@@ -670,7 +671,7 @@ def renderNode (c : RCtx) : Node → M Status
         let filename := joinPath (dirPath c.cfg.path) rel
         let (st, out) ← (fun s => (c.inc line filename env).bind (fun r => .ret (r, s)) : M (Status × Bytes))
         (match st with
-         | .done => do writeM out; pure .done
+         | .done => do writeVerbatimM out; pure .done   -- the tag's writer is `verbatimWriter{w}`
          | st => pure st)
       | _ => M.fail (.located (errorfAt loc .includeArg)))             -- "include requires a string argument"
 def renderList (c : RCtx) : List Node → M Status
